@@ -182,6 +182,60 @@ func addMisc(e *Engine, m map[string]intrinsic) {
 		syncMap(p, args[0]).delete(p, args[1])
 		return nil
 	}
+	// github.com/derekparker/trie (third-party, used by gnmidiff for prefix matching):
+	// summarised by its contract as a set of keys; PrefixSearch(pre) returns the keys
+	// k with HasPrefix(k, pre), nil when there is none; Keys() all keys. The order of
+	// the result (map iteration order in the real trie) is insertion order here.
+	{
+		trieOf := func(p *Path, st value) *[]value {
+			root, _ := st.(structure)[1].(*value)
+			if root == nil || p.tries[root] == nil {
+				panic(unsupported{"trie model: unknown trie"})
+			}
+			return p.tries[root]
+		}
+		search := func(p *Path, keys []value, pre value) value {
+			var out []value
+			for _, k := range keys {
+				if p.decide(hasPrefixTerm(strBytes(k), strBytes(pre)), "trie.PrefixSearch") {
+					out = append(out, k)
+				}
+			}
+			return out
+		}
+		m["github.com/derekparker/trie.New"] = func(p *Path, fr *frame, args []value) value {
+			p.eng.noteStub("github.com/derekparker/trie (summarised as a set of keys with prefix search)")
+			st := zero(e.pkgs["github.com/derekparker/trie"].Type("Trie").Type()).(structure)
+			var rootCell value = structure{}
+			st[1] = &rootCell
+			if p.tries == nil {
+				p.tries = map[*value]*[]value{}
+			}
+			p.tries[&rootCell] = &[]value{}
+			var cell value = st
+			return &cell
+		}
+		m["(*github.com/derekparker/trie.Trie).Add"] = func(p *Path, fr *frame, args []value) value {
+			keys := trieOf(p, *args[0].(*value))
+			for _, k := range *keys {
+				if p.decide(strEq(k, args[1]), "trie.Add duplicate") {
+					return (*value)(nil)
+				}
+			}
+			*keys = append(*keys, args[1])
+			return (*value)(nil)
+		}
+		m["(*github.com/derekparker/trie.Trie).Keys"] = func(p *Path, fr *frame, args []value) value {
+			keys := trieOf(p, *args[0].(*value))
+			if len(*keys) == 0 {
+				return []value{}
+			}
+			return search(p, *keys, "")
+		}
+		m["(github.com/derekparker/trie.Trie).PrefixSearch"] = func(p *Path, fr *frame, args []value) value {
+			return search(p, *trieOf(p, args[0]), args[1])
+		}
+	}
 	// prototext.Format / Message.String(): a structural rendering of the message's
 	// exported fields (injective on the content, not byte-identical to prototext;
 	// callers use it for map keys and messages only)
